@@ -279,6 +279,26 @@ pub fn eval(ctx: &Ctx, case: &Case) -> Verdict {
     }
 }
 
+/// Fuzz / corpus entry: totality on any bytes; parse . generate is idempotent on whatever parses into printable fields.
+pub fn judge_bytes(ctx: &Ctx, bytes: &[u8]) -> Verdict {
+    let parsed = match catch(|| Request::parse(bytes)) {
+        Err((m, loc)) => return Verdict::fail(format!("panic:Request::parse:{}", m), format!("panic at {} on {}", loc, crate::fw::util::lossy(bytes, 200))),
+        Ok(Err(_)) => return Verdict::pass(false),
+        Ok(Ok(r)) => r,
+    };
+    let printable = |s: &str| s.chars().all(|c| !c.is_control());
+    if !(printable(&parsed.request_uri) && parsed.headers.iter().all(|h| printable(&h.name) && printable(&h.value) && !h.name.contains(": ") && !h.name.trim().is_empty())) { return Verdict::pass(false); }
+    // the serialiser writes exact-case method/version as parsed; the request line is re-read through trim() and split on blanks
+    if parsed.request_uri.contains(' ') || parsed.request_uri.is_empty() { return Verdict::pass(false); }
+    let again = match catch(|| Request::parse(&parsed.generate())) {
+        Err((m, loc)) => return Verdict::fail(format!("panic:Request::parse:{}", m), format!("panic at {} on a re-serialised request", loc)),
+        Ok(Err(e)) => return ctx.judge(vec![("reserialised-request-rejected".into(), format!("Err({:?}) for the serialisation of a parsed request: {}", e, crate::fw::util::lossy(&parsed.generate(), 200)))], true, vec![]),
+        Ok(Ok(r)) => r,
+    };
+    if again != parsed { return ctx.judge(vec![("parse-generate-not-idempotent".into(), format!("{:?} != {:?}", again, parsed))], true, vec![]); }
+    Verdict::pass(true)
+}
+
 pub fn run(ctx: &Ctx) {
     let max_body = if ctx.quick() { 2000 } else { 65536 };
     ctx.prop("roundtrip", ctx.share(ctx.scale(50_000, 2_000_000)), roundtrip_strategy(max_body), |c| eval(ctx, c));
